@@ -203,6 +203,8 @@ def explore(args):
     targets = range(len(hist)) if fault_scope == "any" else [len(hist) - 1]
     for k in targets:
         plans = [("cmd", o) for o in sorted(set(base[k]["occ"]), key=base[k]["occ"].index)] + [("src", s) for s in base[k]["src"]]
+        # the analysis job and the conversion can also die AFTER having written their output (an exception at event k)
+        plans += [("cmd", o + ":late") for o in sorted(set(base[k]["occ"]), key=base[k]["occ"].index) if o.split(":")[0] in JOB_TOOLS | {"root"}]
         for kind, what in plans:
             obs = run_history(files, backend, hist, fault_at=k, fault=what if kind == "cmd" else None, srcfault=what if kind == "src" else None, macro_dir=macro_dir)
             stats["runs"] += 1
